@@ -155,7 +155,19 @@ class Obligations:
         return not self.errors and bool(self.theorems)
 
 
-def check_obligations(prop_id: str, expected: Sequence[str] = ()) -> Obligations:
+def check_obligations(prop_id: str, expected: Sequence[str] = (), extra_files: Sequence[str] = ()) -> Obligations:
+    ob = _check_obligations_one(prop_id, prop_id, expected)
+    for x in extra_files:
+        o2 = _check_obligations_one(prop_id, x, ())
+        ob.theorems += o2.theorems
+        ob.assumptions.update(o2.assumptions)
+        ob.errors += o2.errors
+        ob.wall += o2.wall
+        ob.checker_cmd += " && coqc Props/%s.v" % x
+    return ob
+
+
+def _check_obligations_one(prop_id: str, file_id: str, expected: Sequence[str] = ()) -> Obligations:
     """Full make of the development, then recompile Props/<ID>.v and read Print Assumptions."""
     ob = Obligations()
     t0 = time.time()
@@ -165,10 +177,10 @@ def check_obligations(prop_id: str, expected: Sequence[str] = ()) -> Obligations
         ob.errors.append(str(e))
         ob.wall = time.time() - t0
         return ob
-    vfile = os.path.join(COQ, "Props", prop_id + ".v")
-    ob.checker_cmd = "make -C /verif/coq (full .vo build) && coqc -Q /verif/coq Ase Props/%s.v (Print Assumptions)" % prop_id
+    vfile = os.path.join(COQ, "Props", file_id + ".v")
+    ob.checker_cmd = "make -C /verif/coq (full .vo build) && coqc -Q /verif/coq Ase Props/%s.v (Print Assumptions)" % file_id
     if not os.path.exists(vfile):
-        ob.errors.append("Props/%s.v is missing" % prop_id)
+        ob.errors.append("Props/%s.v is missing" % file_id)
         return ob
     bad = grep_forbidden()
     if bad:
@@ -181,13 +193,13 @@ def check_obligations(prop_id: str, expected: Sequence[str] = ()) -> Obligations
     body = re.sub(r"Check\s+[^.]*\.", "", body)
     body = re.sub(r"(Import|Export|Open Scope|Local Open Scope)\s+[^.]*\.", "", body)
     if body.strip():
-        ob.errors.append("Props/%s.v contains something other than theorems closed by exact: %r" % (prop_id, body.strip()[:200]))
+        ob.errors.append("Props/%s.v contains something other than theorems closed by exact: %r" % (file_id, body.strip()[:200]))
     ob.theorems = re.findall(r"(?:Theorem|Lemma)\s+(\w+)\s*:", src)
     with tempfile.TemporaryDirectory(prefix="vp_props_") as td:
-        r = subprocess.run(["coqc", "-Q", COQ, "Ase", "-w", "-all", "-o", os.path.join(td, prop_id + ".vo"), vfile],
+        r = subprocess.run(["coqc", "-Q", COQ, "Ase", "-w", "-all", "-o", os.path.join(td, file_id + ".vo"), vfile],
                            stdout=subprocess.PIPE, stderr=subprocess.STDOUT, text=True, timeout=1800)
     if r.returncode != 0:
-        ob.errors.append("coqc Props/%s.v failed: %s" % (prop_id, r.stdout[-3000:]))
+        ob.errors.append("coqc Props/%s.v failed: %s" % (file_id, r.stdout[-3000:]))
         ob.wall = time.time() - t0
         return ob
     # Print Assumptions output blocks, in order of the Print commands
@@ -210,7 +222,7 @@ def check_obligations(prop_id: str, expected: Sequence[str] = ()) -> Obligations
             ob.errors.append("no Print Assumptions for theorem %s" % t)
     for t in expected:
         if t not in ob.theorems:
-            ob.errors.append("expected theorem %s is missing from Props/%s.v" % (t, prop_id))
+            ob.errors.append("expected theorem %s is missing from Props/%s.v" % (t, file_id))
     ob.wall = time.time() - t0
     return ob
 
